@@ -35,15 +35,11 @@ def passTags (row grow : Bool) (avail gap : Rat) (line : List St) (f : Rat) : Li
     match distribute grow r.2 line with
     | .error _ => []
     | .ok l =>
-      let clamped := (List.zip line l).any fun (s, s') =>
-        !s.frozen && r.2 != 0 &&
-          (let raw := if grow then s.base + r.2 * (s.it.grow / growSum line)
-                      else if scaledShrinkSum line == 0 then s.base
-                      else s.base + r.2 * (s.base * s.it.shrink / scaledShrinkSum line)
-           raw != s'.target)
-      let l2 := l.map (fixMin row)
-      [if clamped then "9.7.5c:min_max-clamps" else "9.7.5c:no-clamp",
-       if sumBy St.adj l2 > 0 then "9.7.5d:min-violation" else "9.7.5d:no-violation"]
+      let l2 := l.map (fixMinMax row)
+      let total := sumBy St.adj l2
+      [if l2.any (fun s => s.adj > 0) then "9.7.5d:min-violation" else "9.7.5d:no-min-violation",
+       if l2.any (fun s => s.adj < 0) then "9.7.5d:max-violation" else "9.7.5d:no-max-violation",
+       if total == 0 then "9.7.5e:freeze-all" else if total > 0 then "9.7.5e:freeze-min" else "9.7.5e:freeze-max"]
   [t1, t2, t3] ++ t4
 
 def loopTags (row grow : Bool) (avail gap : Rat) : Nat → Nat → List St → Rat → List String
@@ -100,7 +96,7 @@ def flexTags (c : Container) (items : List Item) : List String :=
     let t12 := (l11.map fun l =>
       let free := lineFree c.row mainSize c.mainGap l.items
       let autos := countAutoMain c.row l.items
-      [if autos != 0 then (if free < 0 then "12:auto-margins-negative" else "12:auto-margins")
+      [if autos != 0 then (if free < 0 then "12:auto-margins-overflow" else "12:auto-margins")
        else if free < 0 then "12:free<0" else if free == 0 then "12:free=0" else "12:free>0",
        if j == .stretch && growths != 0 then "12:stretch-quirk" else "12:justify"]).flatten
     let l12 := l11.map fun l => { l with items := step12 c mainSize growths l.items }
@@ -236,9 +232,9 @@ def gridTags (c : GContainer) (items : List GItem) : List String :=
       | .ok cols, .ok rows =>
         let colFns := (trackSizes cols).map getSizingFunctions
         let rowFns := (trackSizes rows).map getSizingFunctions
-        let tc := trackTags "cols" colFns (some c.width) (contributions pl.positions items true) pl.implicitSecond1
+        let tc := trackTags "cols" colFns (some c.width) (contributions pl.positions items true) pl.implicitX1
           true c.colGap (isStretchContent c.justifyContent)
-        let tr := match resolveTracks colFns (some c.width) (contributions pl.positions items true) pl.implicitSecond1
+        let tr := match resolveTracks colFns (some c.width) (contributions pl.positions items true) pl.implicitX1
             true c.colGap (isStretchContent c.justifyContent) with
           | .error _ => []
           | .ok _ => trackTags "rows" rowFns c.height (contributions pl.positions items false) pl.implicitY1
